@@ -135,8 +135,9 @@ func C01Configs(thorough bool) []*world.Config {
 	}
 	add(world.UintCfg(2, u(1, 5), 2, B, "none"))
 	add(world.UintCfg(2, u(0, 8), 1, B, "none"))
-	add(world.UintCfg(2, u(1, 5), 1, M, "big"))
-	add(world.UintCfg(2, u(1, 4), 2, B, "big"))
+	add(world.UintCfg(2, []interface{}{uint(1), uint(2), uint(4)}, 1, M, "big"))
+	add(depth(world.UintCfg(2, u(1, 5), 1, M, "big"), 7))
+	add(depth(world.UintCfg(2, u(1, 4), 2, B, "big"), 6))
 	add(world.UintCfg(2, u(1, 4), 2, B, "tiny1"))
 	add(world.UintCfg(3, []interface{}{uint(1), uint(2), uint(3), uint(4), uint(5), uint(6), uint(9)}, 1, B, "none"))
 	add(world.UintCfg(4, []interface{}{uint(1), uint(2), uint(3), uint(4), uint(5), uint(8), uint(16)}, 1, M, "none"))
@@ -145,8 +146,10 @@ func C01Configs(thorough bool) []*world.Config {
 	}
 	add(world.IntCfg(2, []int{-4, -2, -1, 0, 1, 2, 4}, []interface{}{"a"}, "", B, "none"))
 	add(world.IntCfg(2, []int{-2, 0, 1, 2, 4}, []interface{}{[]int{1}, []int{2, 3}}, []int{}, B, "none"))
-	add(world.IntCfg(2, []int{1, 2, 3, 4}, []interface{}{nil}, nil, M, "none"))
-	add(world.IntCfg(2, []int{1, 2, 3, 4, 8}, []interface{}{world.SVal{Asdf: "a", Q: true}, world.SVal{Asdf: "b"}}, world.SVal{}, M, "big"))
+	nv := world.IntCfg(2, []int{1, 2, 3, 4, 8}, []interface{}{nil}, nil, B, "none")
+	nv.RegisteredTypes = true
+	add(nv)
+	add(depth(world.IntCfg(2, []int{1, 2, 3, 4, 8}, []interface{}{world.SVal{Asdf: "a", Q: true}, world.SVal{Asdf: "b"}}, world.SVal{}, M, "big"), 6))
 	add(world.Int64Cfg(2, []int64{-8, -3, 0, 2, 4, 1 << 40}, B, "none"))
 	add(world.Uint64Cfg(2, []uint64{0, 1, 2, 4, 1<<53 + 1, 1 << 63}, B, "none"))
 	add(world.StringCfg(2, []uint8{0, 1, 0, 2, 0}, B, "none"))
@@ -173,12 +176,18 @@ func C01Configs(thorough bool) []*world.Config {
 	return cs
 }
 
+func depth(c *world.Config, d int) *world.Config {
+	c.MaxDepth = d
+	c.Name += fmt.Sprintf("/depth%d", d)
+	return c
+}
+
 // C01 runs the check.
 func C01(run *report.Run) {
 	for _, cfg := range C01Configs(run.Thorough()) {
-		e := &explore.Explorer{Cfg: cfg, Ops: SingleOps(cfg, true), Mon: &c01Mon{cfg: cfg}}
-		if os.Getenv("VERIF_REDUCED") != "" {
-			e.Reduced = true
+		e := &explore.Explorer{Cfg: cfg, Ops: SingleOps(cfg, true), Mon: &c01Mon{cfg: cfg}, Reduced: true, MaxDepth: cfg.MaxDepth}
+		if os.Getenv("VERIF_EXACT") != "" {
+			e.Reduced = false
 		}
 		if f := os.Getenv("VERIF_ONLY"); f != "" && !strings.Contains(cfg.Name, f) {
 			continue
